@@ -10,7 +10,7 @@ for l in open('/verif/properties.jsonl'):
     p=json.loads(l)
     if p['id']==id:
         prop="%s — %s\n\n%s\n\nQuantifier: %s\n\nAnchored in files: %s\n"%(p['id'],p['title'],p['statement'],p['quantifier']['text'],', '.join(p['anchors']['files']))
-t=open('/tmp/agent_prompt.txt').read().replace('@ID@',id+sfx).replace('@PROP@',prop)
+t=open('/verif/lib/agent_prompt.txt').read().replace('@ID@',id+sfx).replace('@PROP@',prop)
 t=t.replace('GOTOOLCHAIN=local`','GOTOOLCHAIN=auto` (do NOT set GOSUMDB=off together with it; simply `export GOFLAGS=-mod=mod GOPROXY=off`)')
 open('/tmp/agent_%s%s/prompt.txt'%(id,sfx),'w').write(t)
 PY
